@@ -551,3 +551,257 @@ func TestC07Reuse(t *testing.T) {
 		}
 	})
 }
+
+// ---- pipe.New over a zero-size element type (struct{}): all values are equal and every &x is the same address, so
+// only counts can be observed - every completed send is delivered, nothing is invented, then the receive side closes.
+
+func runZeroSize(sc *Scenario) string {
+	ctx, cancel := context.WithCancel(context.Background())
+	defer cancel()
+	rcv, snd := pipe.New[struct{}](ctx, sc.Caps0())
+	sent, got := 0, 0
+	closed := false
+	recvOne := func() bool {
+		select {
+		case _, ok := <-rcv:
+			if !ok {
+				closed = true
+				return false
+			}
+			got++
+			return true
+		default:
+			return false
+		}
+	}
+	for _, m := range sc.Script {
+		switch m.K {
+		case "burst":
+			done := make(chan struct{})
+			go func() {
+				defer close(done)
+				for k := 0; k < m.M; k++ {
+					snd <- struct{}{}
+				}
+			}()
+			synctest.Wait()
+			select {
+			case <-done:
+				sent += m.M
+			default:
+				return fmt.Sprintf("pipe.New[struct{}](cap %d): a burst of %d sends has not returned at quiescence (%d sent before, %d received) - the sender waits for the receiver", sc.Caps0(), m.M, sent, got)
+			}
+		case "recv":
+			synctest.Wait()
+			recvOne()
+		case "drain":
+			for {
+				synctest.Wait()
+				if !recvOne() {
+					break
+				}
+			}
+		}
+		if closed {
+			return fmt.Sprintf("pipe.New[struct{}](cap %d): receive side closed although neither cancelled nor closed by the sender", sc.Caps0())
+		}
+		if got > sent {
+			return fmt.Sprintf("pipe.New[struct{}](cap %d): %d values received, only %d sent", sc.Caps0(), got, sent)
+		}
+	}
+	if sc.Mode == "close" {
+		close(snd)
+	} else {
+		cancel()
+	}
+	for k := 0; k < 100000 && !closed; k++ {
+		synctest.Wait()
+		if !recvOne() && !closed {
+			return fmt.Sprintf("pipe.New[struct{}](cap %d, end by %s): the receive side is empty but not closed; %d of %d completed sends delivered", sc.Caps0(), sc.Mode, got, sent)
+		}
+	}
+	if got != sent {
+		return fmt.Sprintf("pipe.New[struct{}](cap %d, end by %s): %d sends completed, %d values delivered before the receive side closed", sc.Caps0(), sc.Mode, sent, got)
+	}
+	return ""
+}
+
+func TestC08Zero(t *testing.T) {
+	rapid.Check(t, func(rt *rapid.T) {
+		sc := &Scenario{Prop: "C08", Stage: "unbound/zero-size", Caps: []int{rapid.IntRange(0, 4).Draw(rt, "cap")},
+			Mode: rapid.SampledFrom([]string{"cancel", "close"}).Draw(rt, "end")}
+		for k := rapid.IntRange(1, 12).Draw(rt, "len"); k > 0; k-- {
+			m := Move{K: rapid.SampledFrom([]string{"burst", "burst", "recv", "recv", "drain"}).Draw(rt, "k")}
+			if m.K == "burst" {
+				m.M = rapid.IntRange(1, 9).Draw(rt, "m")
+			}
+			sc.Script = append(sc.Script, m)
+		}
+		msg := ""
+		b := bubble.Run(t, func() { msg = runZeroSize(sc) })
+		if msg == "" {
+			msg = b
+		}
+		vk.Record(sc, len(sc.Script) >= 3, "stage=unbound/zero-size", "end="+sc.Mode)
+		if msg != "" {
+			vk.Fail("C08", "TestC08Zero", "", sc, msg)
+			rt.Fatalf("%s", msg)
+		}
+	})
+}
+
+// ---- two stages of the same kind consume ONE input channel (plain Go fan-out).  Each element goes to exactly one of
+// them; a stage must never act on a value it did not receive (e.g. because it trusted an earlier len(in)).  The user
+// functions are gated, so the script decides which stage is inside its function while the other one - or the close of
+// the input - empties the buffer.
+
+type sharedStage struct {
+	gate  chan struct{}
+	calls []int
+	out   <-chan int
+	done  <-chan struct{}
+	got   []int
+}
+
+func runShared(sc *Scenario) string {
+	ctx, cancel := context.WithCancel(context.Background())
+	defer cancel()
+	in := make(chan int, sc.Caps0())
+	open := make(chan struct{}) // closed at the end: all gates open
+	mk := func() *sharedStage {
+		s := &sharedStage{gate: make(chan struct{})}
+		f := func(x int) int {
+			s.calls = append(s.calls, x)
+			select {
+			case <-s.gate:
+			case <-open:
+			}
+			return sc.A*x + sc.B
+		}
+		switch sc.Stage {
+		case "shared/map":
+			o, e := pipe.Map(ctx, in, pipe.Pure(f))
+			s.out = pipe.StdErr(o, e)
+		case "shared/filter":
+			s.out = pipe.Filter(ctx, in, pipe.Pure(func(x int) bool { f(x); return x%2 == 1 }))
+		case "shared/fork.foreach":
+			s.done = fork.ForEach(ctx, 1, in, fork.Pure(f))
+		default:
+			s.done = pipe.ForEach(ctx, in, pipe.Pure(f))
+		}
+		return s
+	}
+	st := []*sharedStage{mk(), mk()}
+	xs := sc.In[0]
+	next := 0
+	closed := false
+	recv := func(s *sharedStage) {
+		if s.out == nil {
+			return
+		}
+		select {
+		case v, ok := <-s.out:
+			if ok {
+				s.got = append(s.got, v)
+			}
+		default:
+		}
+	}
+	synctest.Wait()
+	for _, m := range sc.Script {
+		switch m.K {
+		case "send":
+			if next < len(xs) && !closed {
+				select {
+				case in <- xs[next]:
+					next++
+				default:
+				}
+			}
+		case "release":
+			s := st[m.I%2]
+			select {
+			case s.gate <- struct{}{}:
+			default:
+			}
+		case "recv":
+			recv(st[m.I%2])
+		case "close":
+			if !closed {
+				closed = true
+				close(in)
+			}
+		}
+		synctest.Wait()
+	}
+	if !closed {
+		close(in)
+	}
+	close(open)
+	for _, s := range st {
+		if s.out != nil {
+			for v := range s.out {
+				s.got = append(s.got, v)
+			}
+		} else {
+			<-s.done
+		}
+	}
+	synctest.Wait()
+	// every handed element was processed exactly once, by one of the two stages, and nothing else was
+	want := map[int]int{}
+	for _, x := range xs[:next] {
+		want[x]++
+	}
+	have := map[int]int{}
+	for _, s := range st {
+		for _, x := range s.calls {
+			have[x]++
+		}
+	}
+	if fmt.Sprint(want) != fmt.Sprint(have) {
+		return fmt.Sprintf("two %s stages on one input channel (cap %d), elements handed %v: stage A applied its function to %v, stage B to %v - together not exactly the elements handed", sc.Stage[7:], sc.Caps0(), xs[:next], st[0].calls, st[1].calls)
+	}
+	for k, s := range st {
+		if s.out == nil {
+			continue
+		}
+		var exp []int
+		for _, x := range s.calls {
+			if sc.Stage == "shared/filter" {
+				if x%2 == 1 {
+					exp = append(exp, x)
+				}
+			} else {
+				exp = append(exp, sc.A*x+sc.B)
+			}
+		}
+		if fmt.Sprint(exp) != fmt.Sprint(s.got) {
+			return fmt.Sprintf("two %s stages on one input channel: stage %d received %v and delivered %v, expected %v", sc.Stage[7:], k, s.calls, s.got, exp)
+		}
+	}
+	return ""
+}
+
+func TestC05Shared(t *testing.T) {
+	rapid.Check(t, func(rt *rapid.T) {
+		sc := &Scenario{Prop: "C05", Stage: rapid.SampledFrom([]string{"shared/foreach", "shared/map", "shared/filter", "shared/fork.foreach"}).Draw(rt, "stage"),
+			Caps: []int{rapid.IntRange(0, 6).Draw(rt, "cap")}, A: rapid.IntRange(1, 3).Draw(rt, "a"), B: rapid.IntRange(1, 5).Draw(rt, "b"),
+			In: [][]int{rapid.SliceOfN(rapid.IntRange(1, 30), 0, 12).Draw(rt, "in")}}
+		for k := rapid.IntRange(0, 30).Draw(rt, "len"); k > 0; k-- {
+			m := Move{K: rapid.SampledFrom([]string{"send", "send", "send", "release", "release", "recv", "close"}).Draw(rt, "k")}
+			m.I = rapid.IntRange(0, 1).Draw(rt, "which")
+			sc.Script = append(sc.Script, m)
+		}
+		msg := ""
+		b := bubble.Run(t, func() { msg = runShared(sc) })
+		if msg == "" {
+			msg = b
+		}
+		vk.Record(sc, len(sc.In[0]) >= 3 && sc.Caps0() >= 1, "stage="+sc.Stage, "cap="+strconv.Itoa(min(sc.Caps0(), 3)))
+		if msg != "" {
+			vk.Fail("C05", "TestC05Shared", "", sc, msg)
+			rt.Fatalf("%s", msg)
+		}
+	})
+}
